@@ -378,7 +378,7 @@ def reduceRange : List Itv :=
 /-- `reduceRange` IS the analysed post-condition of `reduce` on any twenty u64 lanes -/
 theorem reduce_post_eq_reduceRange : Dalek.Gen.Norm.IfmaField.reduce_post = reduceRange := by decide +kernel
 
-/-- **The defect fixed by /repo commit c662d20** (`negate_lazy` now subtracts from `32p` instead of `16p`).
+/-- **The defect fixed by /repo commit f67a738** (`negate_lazy` now subtracts from `32p` instead of `16p`).
 Witness, element A only (IFMA lane order `4 i + j`; elements B, C, D are 0):
 `x = [2^51 + 155627, 2^51 + 1, 2^51 + 1, 2^51 + 1, 1005830831932087]`,
 `y = [2^51 + 155613, 2^51 − 1, 2^51 − 1, 2^51 − 1, 1591960409831878]`.
